@@ -50,8 +50,29 @@ class SpecGen(aasgen.Gen):
     DECIMALS = ["100", "1200", "1E+5", "0.00000012", "2.50E+3", "-7000", "0.000001", "1.10", "-0.5", "0",
                 "1234567890123456789012345678901234567890", "0.1234567890123456789012345678901", "-1E-9", "5E+30"]
 
+    @staticmethod
+    def durations():
+        """xs:duration values as the API lets them be built: every single field with either sign, all fields at once
+        with either sign, negative values with fractional seconds, and non-integral / un-normalised fields (hours=1.5,
+        days=0.5, minutes=90, seconds=3600.5, weeks=1.5) which only normalized() turns into an xs:duration literal"""
+        from dateutil.relativedelta import relativedelta as rd
+        out = []
+        for sign in (1, -1):
+            for f in ("years", "months", "days", "hours", "minutes", "seconds", "microseconds"):
+                out.append(rd(**{f: sign * 7}))
+            out.append(rd(years=sign * 1, months=sign * 2, days=sign * 3, hours=sign * 4, minutes=sign * 5, seconds=sign * 6,
+                          microseconds=sign * 7))
+            out += [rd(seconds=sign * 1, microseconds=sign * 500000), rd(microseconds=sign * 500000),
+                    rd(hours=sign * 1.5), rd(days=sign * 0.5), rd(minutes=sign * 90), rd(seconds=sign * 3600.5),
+                    rd(weeks=sign * 1.5), rd(minutes=sign * 2.25), rd(months=sign * 14), rd(hours=sign * 25),
+                    rd(days=sign * 1, seconds=sign * 59, microseconds=sign * 999999)]
+        return out
+
     def xsd_value(self, t):
         import decimal
+        from dateutil.relativedelta import relativedelta
+        if t is relativedelta and self.rng.random() < 0.7:
+            return self.rng.choice(self.durations())
         if t is decimal.Decimal:
             # integral values with trailing zeros, values below 1e-6, exponents, more than 28 digits: the spellings on
             # which str(Decimal) / normalize() switch to scientific notation (no xs:decimal literal)
@@ -111,6 +132,11 @@ class SpecGen(aasgen.Gen):
                 e.value = r.choice(FILE_URIS)
         elif n == "Blob":
             e.content_type = r.choice(CONTENT_TYPES)
+        elif n == "BasicEventElement":
+            if e.min_interval is not None and r.random() < 0.7:
+                e.min_interval = r.choice(self.durations())
+            if e.max_interval is not None and r.random() < 0.7:
+                e.max_interval = r.choice(self.durations())
         return e
 
 
@@ -198,6 +224,7 @@ def lexical_ok(xstype, s):
 
 
 TYPED_MEMBERS = ("value", "min", "max")
+FIXED_TYPED = {"lastUpdate": "xs:dateTime", "minInterval": "xs:duration", "maxInterval": "xs:duration"}   # BasicEventElement
 
 
 def typed_values_json(d, cls="", out=None):
@@ -214,6 +241,9 @@ def typed_values_json(d, cls="", out=None):
             for m in TYPED_MEMBERS:
                 if isinstance(d.get(m), str):
                     out.append((c or "Qualifier|Extension", m, vt, d[m]))
+        for m, vt in FIXED_TYPED.items():
+            if isinstance(d.get(m), str):
+                out.append((c, m, vt, d[m]))
         for k, v in d.items():
             typed_values_json(v, {"qualifiers": "Qualifier", "extensions": "Extension"}.get(k, ""), out)
     return out
@@ -224,6 +254,8 @@ def typed_values_xml(root):
     for e in root.iter():
         if not isinstance(e.tag, str):
             continue
+        if Twin.tag(e) in FIXED_TYPED and len(e) == 0:
+            out.append((Twin.tag(e.getparent()), Twin.tag(e), FIXED_TYPED[Twin.tag(e)], e.text or ""))
         vt = e.find(NS + "valueType")
         if vt is None or vt.text is None:
             continue
@@ -466,8 +498,14 @@ def literal(leaf, style=""):
         y, mo, d, h, mi, s, us = leaf[1:]
         neg = any(x < 0 for x in leaf[1:])
         y, mo, d, h, mi, s, us = (abs(x) for x in (y, mo, d, h, mi, s, us))
-        date = (f"{y}Y" if y else "") + (f"{mo}M" if mo else "") + (f"{d}D" if d else "")
-        sec = f"{s}{frac(us)}S" if (s or us) else ""
+        if style == "coarse":            # the same duration with fewer, un-normalised fields: P14M, PT5430.5S
+            mo, y = 12 * y + mo, 0
+            s, h, mi = 3600 * h + 60 * mi + s, 0, 0
+        z = "0" if style == "zeros" else ""
+        date = (f"{z}{y}Y" if y else "") + (f"{z}{mo}M" if mo else "") + (f"{z}{d}D" if d else "")
+        sec = f"{z}{s}{frac(us)}{'00' if z and us else ''}S" if (s or us) else ""
+        if z:
+            h, mi = (f"0{h}" if h else 0), (f"0{mi}" if mi else 0)
         tm = (f"{h}H" if h else "") + (f"{mi}M" if mi else "") + sec
         if not date and not tm:
             tm = "0S"
@@ -541,7 +579,7 @@ LITERAL_STYLES = {  # styles that change the spelling but not the value, per can
     "UnsignedLong": ["plus", "zeros"], "UnsignedInt": ["plus", "zeros"], "UnsignedShort": ["plus", "zeros"],
     "UnsignedByte": ["plus", "zeros"], "NonPositiveInteger": ["zeros"], "NegativeInteger": ["zeros"],
     "boolean": ["num"], "float": ["exp", "plus"], "Float": ["exp", "plus"], "decimal": ["plus", "zeros"],
-    "dateTime": ["tzplus", "tzminus", "frac0"], "date": ["tzplus"], "time": ["tzplus"], "HexBinary": ["lower"],
+    "duration": ["coarse", "zeros"], "dateTime": ["tzplus", "tzminus", "frac0"], "date": ["tzplus"], "time": ["tzplus"], "HexBinary": ["lower"],
 }
 
 
